@@ -28,6 +28,8 @@ pub struct TypeAlpha {
     pub name: &'static str,
     pub code: u16,
     pub values: Vec<Rdata>,
+    /// false: deviations are recorded as observations only (reported to the lead, not yet triaged)
+    pub judged: bool,
 }
 
 /// Embedded-name alphabet: mixed case, a case-only pair (canonical duplicates for lower-casing
@@ -36,12 +38,12 @@ const NAMES: [&str; 5] = ["a.z", "B.z", "b.z", "C.a.z", "ab.z"];
 
 pub fn alphabets(thorough: bool) -> Vec<TypeAlpha> {
     let mut v = vec![];
-    v.push(TypeAlpha {
+    v.push(TypeAlpha { judged: true,
         name: "A",
         code: 1,
         values: vec![vec![b(&[10, 0, 0, 1])], vec![b(&[10, 0, 0, 2])], vec![b(&[9, 255, 255, 255])], vec![b(&[10, 0, 0, 0])]],
     });
-    v.push(TypeAlpha {
+    v.push(TypeAlpha { judged: true,
         name: "AAAA",
         code: 28,
         values: vec![
@@ -52,9 +54,9 @@ pub fn alphabets(thorough: bool) -> Vec<TypeAlpha> {
         ],
     });
     for (name, code) in [("NS", 2u16), ("CNAME", 5), ("PTR", 12)] {
-        v.push(TypeAlpha { name, code, values: NAMES.iter().map(|s| vec![n(s)]).collect() });
+        v.push(TypeAlpha { judged: true, name, code, values: NAMES.iter().map(|s| vec![n(s)]).collect() });
     }
-    v.push(TypeAlpha {
+    v.push(TypeAlpha { judged: true,
         name: "MX",
         code: 15,
         values: vec![
@@ -72,7 +74,7 @@ pub fn alphabets(thorough: bool) -> Vec<TypeAlpha> {
         }
         vec![n(m), n(r), Field::Bytes(tail)]
     };
-    v.push(TypeAlpha {
+    v.push(TypeAlpha { judged: true,
         name: "SOA",
         code: 6,
         values: vec![
@@ -85,7 +87,7 @@ pub fn alphabets(thorough: bool) -> Vec<TypeAlpha> {
         ],
     });
     let srv = |p: u16, w: u16, port: u16, t: &str| -> Rdata { vec![u16b(p), u16b(w), u16b(port), n(t)] };
-    v.push(TypeAlpha {
+    v.push(TypeAlpha { judged: true,
         name: "SRV",
         code: 33,
         values: vec![srv(1, 2, 80, "T.z"), srv(1, 2, 80, "t.z"), srv(1, 2, 80, "a.z"), srv(0, 0, 0, ""), srv(1, 2, 79, "z.z")],
@@ -99,7 +101,7 @@ pub fn alphabets(thorough: bool) -> Vec<TypeAlpha> {
         x.extend_from_slice(&cs(re));
         vec![Field::Bytes(x), n(rep)]
     };
-    v.push(TypeAlpha {
+    v.push(TypeAlpha { judged: true,
         name: "NAPTR",
         code: 35,
         values: vec![
@@ -110,7 +112,7 @@ pub fn alphabets(thorough: bool) -> Vec<TypeAlpha> {
         ],
     });
     let txt = |ss: &[&[u8]]| -> Rdata { vec![Field::Bytes(ss.iter().flat_map(|s| cs(s)).collect())] };
-    v.push(TypeAlpha {
+    v.push(TypeAlpha { judged: true,
         name: "TXT",
         code: 16,
         values: vec![txt(&[b"a"]), txt(&[b"a", b"b"]), txt(&[b"ab"]), txt(&[b"A"]), txt(&[b""])],
@@ -122,7 +124,7 @@ pub fn alphabets(thorough: bool) -> Vec<TypeAlpha> {
         x.extend(std::iter::repeat(fill).take(len));
         vec![Field::Bytes(x)]
     };
-    v.push(TypeAlpha {
+    v.push(TypeAlpha { judged: true,
         name: "DS",
         code: 43,
         values: vec![ds(1, 8, 2, 0xaa, 32), ds(1, 8, 2, 0xab, 32), ds(1, 8, 1, 0xaa, 20), ds(0, 13, 2, 0x00, 32)],
@@ -134,13 +136,13 @@ pub fn alphabets(thorough: bool) -> Vec<TypeAlpha> {
         x.extend_from_slice(key);
         vec![Field::Bytes(x)]
     };
-    v.push(TypeAlpha {
+    v.push(TypeAlpha { judged: true,
         name: "DNSKEY",
         code: 48,
         values: vec![dnskey(256, 15, &[7u8; 32]), dnskey(257, 15, &[7u8; 32]), dnskey(256, 15, &[8u8; 32]), dnskey(256, 13, &[9u8; 64])],
     });
     let nsec = |next: &str, types: &[u16]| -> Rdata { vec![n(next), Field::Bytes(type_bitmap(types))] };
-    v.push(TypeAlpha {
+    v.push(TypeAlpha { judged: true,
         name: "NSEC",
         code: 47,
         // no two values differ only in the case of the next name (whether those would be
@@ -157,7 +159,7 @@ pub fn alphabets(thorough: bool) -> Vec<TypeAlpha> {
         vec![u16b(prio), n(target), Field::Bytes(x)]
     };
     for (name, code) in [("SVCB", 64u16), ("HTTPS", 65)] {
-        v.push(TypeAlpha {
+        v.push(TypeAlpha { judged: true,
             name,
             code,
             values: vec![
@@ -174,7 +176,7 @@ pub fn alphabets(thorough: bool) -> Vec<TypeAlpha> {
         x.extend_from_slice(val);
         vec![Field::Bytes(x)]
     };
-    v.push(TypeAlpha {
+    v.push(TypeAlpha { judged: true,
         name: "CAA",
         code: 257,
         values: vec![
@@ -184,15 +186,15 @@ pub fn alphabets(thorough: bool) -> Vec<TypeAlpha> {
             caa(0, b"iodef", b"mailto:sec@z.example"),
         ],
     });
-    v.push(TypeAlpha {
+    v.push(TypeAlpha { judged: true,
         name: "TYPE65280",
         code: 65280,
         // opaque RDATA (RFC 3597): nothing inside may be lower-cased, even if it looks like a name
         values: vec![vec![b(&[])], vec![b(&[0])], vec![b(&[0, 0])], vec![b(&[1])], vec![b(b"\x01A\x01z\x00")], vec![b(b"\x01a\x01z\x00")]],
     });
     // Types of the RFC 4034 6.2 list that hickory has no typed RDATA for
-    v.push(TypeAlpha { name: "DNAME", code: 39, values: vec![vec![n("T.z")], vec![n("a.z")], vec![n("b.z")]] });
-    v.push(TypeAlpha { name: "KX", code: 36, values: vec![vec![u16b(1), n("K.z")], vec![u16b(1), n("a.z")], vec![u16b(0), n("z.z")]] });
+    v.push(TypeAlpha { judged: true, name: "DNAME", code: 39, values: vec![vec![n("T.z")], vec![n("a.z")], vec![n("b.z")]] });
+    v.push(TypeAlpha { judged: true, name: "KX", code: 36, values: vec![vec![u16b(1), n("K.z")], vec![u16b(1), n("a.z")], vec![u16b(0), n("z.z")]] });
     // ---- extension round: every remaining type hickory has typed RDATA for
     let nsec3 = |alg: u8, flags: u8, iter: u16, salt: &[u8], next: &[u8], types: &[u16]| -> Rdata {
         let mut x = vec![alg, flags];
@@ -202,7 +204,7 @@ pub fn alphabets(thorough: bool) -> Vec<TypeAlpha> {
         x.extend_from_slice(&type_bitmap(types));
         vec![Field::Bytes(x)]
     };
-    v.push(TypeAlpha {
+    v.push(TypeAlpha { judged: true,
         name: "NSEC3",
         code: 50,
         values: vec![
@@ -219,22 +221,22 @@ pub fn alphabets(thorough: bool) -> Vec<TypeAlpha> {
         x.extend_from_slice(&cs(salt));
         vec![Field::Bytes(x)]
     };
-    v.push(TypeAlpha {
+    v.push(TypeAlpha { judged: true,
         name: "NSEC3PARAM",
         code: 51,
         values: vec![n3p(1, 0, 0, &[]), n3p(1, 0, 0, &[0]), n3p(1, 0, 0, &[0, 0]), n3p(1, 0, 10, &[0xab, 0xcd])],
     });
-    v.push(TypeAlpha {
+    v.push(TypeAlpha { judged: true,
         name: "CDS",
         code: 59,
         values: vec![ds(1, 8, 2, 0xaa, 32), ds(1, 8, 2, 0xab, 32), ds(1, 8, 4, 0xaa, 48), vec![b(&[0, 0, 0, 0, 0])]],
     });
-    v.push(TypeAlpha {
+    v.push(TypeAlpha { judged: true,
         name: "CDNSKEY",
         code: 60,
         values: vec![dnskey(256, 15, &[7u8; 32]), dnskey(257, 15, &[7u8; 32]), dnskey(257, 13, &[9u8; 64]), vec![b(&[0, 0, 3, 0, 0])]],
     });
-    v.push(TypeAlpha {
+    v.push(TypeAlpha { judged: true,
         name: "KEY",
         code: 25,
         values: vec![dnskey(256, 8, &[3, 1, 0, 1, 0xc1, 0xc2, 0xc3, 0xc4]), dnskey(0, 13, &[9u8; 64]), dnskey(512, 15, &[7u8; 32])],
@@ -245,14 +247,14 @@ pub fn alphabets(thorough: bool) -> Vec<TypeAlpha> {
         vec![Field::Bytes(x)]
     };
     for (name, code) in [("TLSA", 52u16), ("SMIMEA", 53)] {
-        v.push(TypeAlpha {
+        v.push(TypeAlpha { judged: true,
             name,
             code,
             // the 2nd..4th value are proper prefixes of one another / differ only in length
             values: vec![assoc(3, 1, 1, &[0xee; 32]), assoc(3, 1, 0, &[0x30, 0x82]), assoc(3, 1, 0, &[0x30, 0x82, 0x00]), assoc(3, 1, 0, &[0x30, 0x82, 0x00, 0x00]), assoc(0, 0, 2, &[0x01; 64])],
         });
     }
-    v.push(TypeAlpha {
+    v.push(TypeAlpha { judged: true,
         name: "SSHFP",
         code: 44,
         values: vec![
@@ -269,7 +271,7 @@ pub fn alphabets(thorough: bool) -> Vec<TypeAlpha> {
         x.extend_from_slice(data);
         vec![Field::Bytes(x)]
     };
-    v.push(TypeAlpha {
+    v.push(TypeAlpha { judged: true,
         name: "CERT",
         code: 37,
         values: vec![cert(1, 12345, 8, &[0x30, 0x82, 1, 2]), cert(1, 12345, 8, &[0x30, 0x82, 1, 2, 0]), cert(3, 0, 0, &[0x99; 40]), cert(254, 65535, 253, &[1])],
@@ -280,7 +282,7 @@ pub fn alphabets(thorough: bool) -> Vec<TypeAlpha> {
         x.extend_from_slice(&type_bitmap(types));
         vec![Field::Bytes(x)]
     };
-    v.push(TypeAlpha {
+    v.push(TypeAlpha { judged: true,
         name: "CSYNC",
         code: 62,
         values: vec![csync(66, 3, &[1, 2, 28]), csync(66, 1, &[2]), csync(0, 0, &[]), csync(0xffff_ffff, 2, &[1, 2, 28, 1234])],
@@ -293,14 +295,14 @@ pub fn alphabets(thorough: bool) -> Vec<TypeAlpha> {
             x.extend_from_slice(tail);
             vec![Field::Bytes(x)]
         };
-        v.push(TypeAlpha {
+        v.push(TypeAlpha { judged: true,
             name: "OPENPGPKEY",
             code: 61,
             values: vec![ext(&[]), ext(&[0]), ext(&[0, 0]), ext(&[1]), ext(&[0, 1]), vec![b(&base[..39])]],
         });
     }
-    v.push(TypeAlpha { name: "NULL", code: 10, values: vec![vec![b(&[])], vec![b(&[0xff])], vec![b(&[0xff, 0])], vec![b(b"\x01A\x00")]] });
-    v.push(TypeAlpha {
+    v.push(TypeAlpha { judged: true, name: "NULL", code: 10, values: vec![vec![b(&[])], vec![b(&[0xff])], vec![b(&[0xff, 0])], vec![b(b"\x01A\x00")]] });
+    v.push(TypeAlpha { judged: true,
         name: "HINFO",
         code: 13,
         // on the RFC 4034 list, but contains no names: nothing may be folded
@@ -312,9 +314,9 @@ pub fn alphabets(thorough: bool) -> Vec<TypeAlpha> {
         ],
     });
     // ANAME is a private type of hickory (65305): not on the RFC 4034 list, names keep their case
-    v.push(TypeAlpha { name: "TYPE65305", code: 65305, values: vec![vec![n("T.z")], vec![n("t.z")], vec![n("a.z")], vec![n("")]] });
+    v.push(TypeAlpha { judged: true, name: "TYPE65305", code: 65305, values: vec![vec![n("T.z")], vec![n("t.z")], vec![n("a.z")], vec![n("")]] });
     // more SvcParams (RFC 9460 7): mandatory, no-default-alpn, ipv4hint, ipv6hint, an unknown key
-    v.push(TypeAlpha {
+    v.push(TypeAlpha { judged: true,
         name: "SVCB",
         code: 64,
         values: vec![
@@ -324,9 +326,34 @@ pub fn alphabets(thorough: bool) -> Vec<TypeAlpha> {
             svcb(2, "svc.z", &[(65000, &[])]),
         ],
     });
+    // SIG (24, RFC 2535) has typed RDATA in hickory and is on the RFC 4034 list: the signer's name is lower-cased
+    let sig24 = |covered: u16, alg: u8, labels: u8, signer: &str, sig: &[u8]| -> Rdata {
+        let mut x = covered.to_be_bytes().to_vec();
+        x.push(alg);
+        x.push(labels);
+        for v in [3600u32, 1_700_086_400, 1_700_000_000] {
+            x.extend_from_slice(&v.to_be_bytes());
+        }
+        x.extend_from_slice(&4711u16.to_be_bytes());
+        vec![Field::Bytes(x), n(signer), b(sig)]
+    };
+    v.push(TypeAlpha { judged: true,
+        name: "SIG",
+        code: 24,
+        values: vec![sig24(1, 8, 2, "Signer.z", &[1, 2, 3, 4]), sig24(1, 8, 2, "signer.z", &[1, 2, 3, 4]), sig24(1, 8, 2, "a.z", &[1, 2, 3]), sig24(0, 8, 0, "", &[9; 16])],
+    });
     if thorough {
-        v.push(TypeAlpha { name: "RP", code: 17, values: vec![vec![n("Box.z"), n("Txt.z")], vec![n("a.z"), n("")]] });
-        v.push(TypeAlpha { name: "AFSDB", code: 18, values: vec![vec![u16b(1), n("Db.z")], vec![u16b(2), n("a.z")]] });
+        // the remaining (obsolete) types of the RFC 4034 6.2 list; hickory has no typed RDATA for them
+        for (name, code) in [("MD", 3u16), ("MF", 4), ("MB", 7), ("MG", 8), ("MR", 9)] {
+            v.push(TypeAlpha { judged: false, name, code, values: vec![vec![n("T.z")], vec![n("a.z")]] });
+        }
+        v.push(TypeAlpha { judged: false, name: "MINFO", code: 14, values: vec![vec![n("R.z"), n("E.z")], vec![n("a.z"), n("")]] });
+        v.push(TypeAlpha { judged: false, name: "RT", code: 21, values: vec![vec![u16b(1), n("R.z")], vec![u16b(1), n("a.z")]] });
+        v.push(TypeAlpha { judged: false, name: "PX", code: 26, values: vec![vec![u16b(1), n("M.z"), n("X.z")], vec![u16b(1), n("a.z"), n("")]] });
+        v.push(TypeAlpha { judged: false, name: "NXT", code: 30, values: vec![vec![n("N.z"), b(&[0x40, 0x01])], vec![n("a.z"), b(&[0x40])]] });
+        v.push(TypeAlpha { judged: false, name: "A6", code: 38, values: vec![vec![b(&[128]), n("P.z")], vec![b(&[128]), n("a.z")]] });
+        v.push(TypeAlpha { judged: true, name: "RP", code: 17, values: vec![vec![n("Box.z"), n("Txt.z")], vec![n("a.z"), n("")]] });
+        v.push(TypeAlpha { judged: true, name: "AFSDB", code: 18, values: vec![vec![u16b(1), n("Db.z")], vec![u16b(2), n("a.z")]] });
     }
     v
 }
